@@ -75,11 +75,9 @@ func (m MountConditions) Compare(other MountConditions) int {
 }
 
 func (m *MountConditions) Merge(other MountConditions) bool {
-	if m.FsType == other.FsType {
-		m.Options = merge(MOUNT, "flags", m.Options, other.Options)
-		return true
-	}
-	return false
+	// The option list is matched as a whole: the union of two option lists
+	// would require all the flags at once and match neither of the rules.
+	return m.FsType == other.FsType && compare(m.Options, other.Options) == 0
 }
 
 func (m MountConditions) getLenFsType() int {
